@@ -78,6 +78,24 @@ def bodies(tier, b, seed):
                 B.add({"op": "getitem", "a": {"r": base}, "i": ri})
                 return B.build(style)
             out.append(("b%d/arrget/%d/%d" % (b, n, idx), mk))
+    # two-call chains: the result of a call that may be invalid for the values feeds a gadget in the same body
+    cvals = [(-3, 2), (3, 2), (1, 0), (2, -2), (0, 3)] if tier == "quick" else [(a_, b_) for a_ in (-3, -1, 0, 1, 3) for b_ in (-2, 0, 2, 3)]
+    for op1 in ("truediv", "floordiv", "mod", "mul", "sub"):
+        for (k1, k2) in (("S", "c"), ("S", "S")):
+            for op2 in ("mul", "eq", "lt", "check_zero", "assert_nonzero", "truediv"):
+                for (x, y) in cvals:
+                    def mk(mode, style, op1=op1, op2=op2, k1=k1, k2=k2, x=x, y=y):
+                        B = gen.Builder("b%d/chain/%s-%s/%s%s/%d,%d/%s/%s" % (b, op1, op2, k1, k2, x, y, mode, style), mode, None,
+                                        {"op": "chain_%s_%s" % (op1, op2), "kinds": k1 + k2})
+                        rx, ry, rz = B.opnd((k1, x)), B.opnd((k2, y)), B.opnd(("S", 3))
+                        base = gen.Builder.body_base(B.nreg, mode, style)
+                        B.add({"op": "bin", "name": op1, "a": rx, "b": ry})
+                        if op2 in ("mul", "eq", "lt", "truediv"):
+                            B.add({"op": "bin", "name": op2, "a": {"r": base}, "b": rz})
+                        else:
+                            B.add({"op": "meth", "name": op2, "a": {"r": base}})
+                        return B.build(style)
+                    out.append(("b%d/chain/%s-%s/%s%s/%d,%d" % (b, op1, op2, k1, k2, x, y), mk))
     # seeded multi-call bodies
     nr = 120 if tier == "quick" else 1500
     for i in range(nr):
